@@ -267,7 +267,7 @@ func FoldedEq(p *Prog, argv []string) bool {
 }
 
 func Decide(p *Prog, n *NFA, argv []string) Verdict {
-	m := &m2{p: p, n: n, argv: argv, memo: map[string]bool{}, hasDD: strings.Contains(p.Spec, "--")}
+	m := &m2{p: p, n: n, argv: argv, memo: map[string]bool{}, hasDD: p.HasDD()}
 	used := make([]int, len(p.Args)+len(p.Opts))
 	acc := m.ok(cfg{q: n.Start}, used)
 	v := Verdict{Accept: acc, Unclaimed: (m.uncl && !acc) || m.hard, Steps: m.steps}
@@ -285,7 +285,7 @@ func Decide(p *Prog, n *NFA, argv []string) Verdict {
 }
 
 func Admits(p *Prog, n *NFA, argv []string, want map[*ArgDecl][]string, wantO map[*OptDecl][]string) (bool, bool) {
-	m := &m2{p: p, n: n, argv: argv, memo: map[string]bool{}, want: want, wantO: wantO, hasDD: strings.Contains(p.Spec, "--")}
+	m := &m2{p: p, n: n, argv: argv, memo: map[string]bool{}, want: want, wantO: wantO, hasDD: p.HasDD()}
 	if want == nil {
 		m.want = map[*ArgDecl][]string{}
 	}
